@@ -483,7 +483,13 @@ func exec(op string) vlib.Res {
 		if err := req.Unpack(rawQuery(q)); err != nil {
 			return vlib.Res{Impl: "undecodable"}
 		}
-		up := buildUpstream(r, req)
+		admitQ := q
+		if len(f) > 5 {
+			admitQ.mask = vlib.Atoi(f[5]) // admitted under another spelling of the name
+		}
+		admitReq := new(dns.Msg)
+		_ = admitReq.Unpack(rawQuery(admitQ))
+		up := buildUpstream(r, admitReq)
 		e := cache.NewCacheEntry(up, 60*time.Second, 0)
 		if e == nil {
 			return vlib.Res{Impl: "nocache", Oracle: "-"}
@@ -536,7 +542,14 @@ func exec(op string) vlib.Res {
 		if err := req.Unpack(raw); err != nil {
 			return vlib.Res{Impl: "undecodable"}
 		}
-		up := buildUpstream(r, req)
+		// the entry is admitted from the answer to a query that may have spelled the name differently
+		admitQ := q
+		if len(f) > 4 {
+			admitQ.mask = vlib.Atoi(f[4])
+		}
+		admitReq := new(dns.Msg)
+		_ = admitReq.Unpack(rawQuery(admitQ))
+		up := buildUpstream(r, admitReq)
 		e := cache.NewCacheEntry(up, 60*time.Second, 0)
 		if e == nil {
 			return vlib.Res{Impl: "nocache", Oracle: "-"}
